@@ -106,7 +106,7 @@ def relabelled(rec, mode):
     """the same plasmid as a curator would annotate it: the resistance cassette carries further labels (its tag
     not the first), other features carry several labels"""
     import copy
-    from moclo.registry._utils import _ANTIBIOTICS
+    _ANTIBIOTICS = impl.antibiotics()
     rec = copy.deepcopy(rec)
     for ft in rec.features:
         labels = list(ft.qualifiers.get("label", []))
@@ -180,11 +180,16 @@ def _check_dir(ctx, case):
     ctx.note("dir-backend:" + case.get("backend", "memory"))
     check_mapping(ctx, "directory registry", reg, case, expect_keys=expect, absent_keys=absent)
     ctx.note("dir-files", len(case["files"]))
+    ctx.case(case, nontrivial=len(list(reg)) >= 2 if expect is None else len(expect) >= 2)
     # the model of the directory logic (Dir.keys / Dir.lookup) against the real registry on the same listing
     def nm(x):
         return "n" + ",".join(str(ord(ch)) for ch in x)
-    listing = [(i.name, not i.is_dir) for i in reg.fs.scandir("/")]
-    ci = bool(reg.fs.getmeta().get("case_insensitive", True))
+    fsobj = getattr(reg, "fs", None)
+    if fsobj is None:
+        ctx.note("dir-model-tie-skipped")       # the filesystem handle is not where it was: oracle only
+        return
+    listing = [(i.name, not i.is_dir) for i in fsobj.scandir("/")]
+    ci = bool(fsobj.getmeta().get("case_insensitive", True))
     keys = list(reg)
     probes = keys + [a for a in absent if isinstance(a, str)] + ["__absent__", "", "pYTK999x"]
     found = ""
@@ -200,7 +205,6 @@ def _check_dir(ctx, case):
                                ";".join(nm(n) + ":" + ("1" if f else "0") for n, f in listing) or ".",
                                ";".join(nm(k) for k in probes)])), case,
            reply="\t".join(["ok", ";".join(nm(k) for k in keys) or ".", found]))
-    ctx.case(case, nontrivial=len(list(reg)) >= 2 if expect is None else len(expect) >= 2)
 
 
 class ListRegistry(object):
@@ -315,7 +319,7 @@ def check_combine_real(ctx, case):
 def check_resistance(ctx, case):
     """which antibiotic a plasmid is selected on: the first feature carrying a cassette tag among its labels
     decides; two different tags on one feature are refused; nothing tagged is refused"""
-    from moclo.registry._utils import _ANTIBIOTICS
+    _ANTIBIOTICS = impl.antibiotics()
     feats = case["labels"]
     exp = "notfound"
     for labels in feats:
@@ -338,7 +342,7 @@ def check_resistance(ctx, case):
 
 
 def gen_labels(rng):
-    from moclo.registry._utils import _ANTIBIOTICS
+    _ANTIBIOTICS = impl.antibiotics()
     tags = sorted(_ANTIBIOTICS)
     other = ["cat", "ori", "CmR ", "cmr", "KanR2", "AmpR promoter", "bla", "rep", "GFP", "resistance marker"]
     feats = []
